@@ -132,6 +132,20 @@ CHECKS = {
         note=('Formulas are batched 40 per model (one edge and one location each) and judged by the path of the reported errors; '
               'every apparent violation is re-run alone before it counts. Which atoms are acceptable alone per position is measured.'),
     ),
+    'C11': dict(
+        engine='oracle-server + cell enumeration (harness/py/prop_C11.py, cells.py)',
+        technique='exhaustive cell enumeration with a twin (metamorphic) oracle: side-effect-free context x write form; the model with the write must be rejected, its twin with a read of the same shape / a write to callee locals must be accepted',
+        category='exploration',
+        text=('24 side-effect-free contexts (labels, initialisers at three levels, array size, range bound, instantiation '
+              'argument, quantifier bodies, assert, seven query forms) x 59 write forms (every assignment operator, ++/--, '
+              'element and field writes, writes nested in sub-expressions, writer functions with the write in every statement '
+              'position, call chains to depth 4, writes through reference parameters) are enumerated completely; each cell is '
+              'a model W and a twin R. W must be rejected, R accepted - the twin makes the rejection attributable to the write.'),
+        design_ref='DESIGN.md 4/C11',
+        note=('Exhaustive for the stated finite cell table only. Rejection is any error on the document or query; the evidence '
+              'histogram shows how many rejections carry a side-effect message (compile-time contexts may reject a direct write '
+              'for computability instead).'),
+    ),
     'C14': dict(
         engine='oracle-server expression builder + TypeChecker::checkExpression; cell enumeration + Hypothesis (harness/py/prop_C14.py)',
         technique='metamorphic testing (operand swap): acceptance and result-type kind of a op b vs b op a, c ? a : b vs !c ? b : a (bare and inside lvalue / reference-argument contexts), f(A&) with a B variable vs f(B&) with an A variable; complete enumeration of type-class pairs x operators, random representatives',
